@@ -275,7 +275,10 @@ def dump_to_coq(d, addr_index):
     nz = lambda l: clist("(%s,%s)" % (cid(x["id"]), cz(x["pw"])) for x in (l or []))
     mem = NAMES.share("vpr_obs", "(%s,%s,%s,%s)" % (cz(m["total"]), buckets_to_coq(m["b"], addr_index), nz(m["p"]), nz(m["ch"])))
     rel = NAMES.share("(Z * list (N * list vp))%type", "(%s,%s)" % (cz(rl["total"]), buckets_to_coq(rl["b"], addr_index)))
-    return "(%s,%s,(%s,%s),%s,%s,%s,%s)" % (e, clist(accs), cz(d["sysbal"]), cz(d["total"]), res, par, mem, rel)
+    picks = clist("(%s,%s)" % (cz(p["r"] or 0), "None" if not p["w"] else "(Some %d%%N)" % addr_index.get(p["w"], 999))
+                  for p in (d.get("picks") or []) if p["r"] != "" or p["err"])
+    sel = NAMES.share("sel_obs", "(%s,%s)" % (clist(cbytes(bytes.fromhex(c)) for c in (d.get("rankers") or [])), picks))
+    return "(%s,%s,(%s,%s),%s,%s,%s,%s,%s)" % (e, clist(accs), cz(d["sysbal"]), cz(d["total"]), res, par, mem, rel, sel)
 
 
 def scenario_to_coq(sc, dumps, fixed):
